@@ -35,6 +35,10 @@ func gen(t *rapid.T) Case {
 		o.Types = []string{"Bounds"}
 	case 2:
 		c.Neg = "nonfinite"
+	case 3:
+		if rapid.Bool().Draw(t, "nilgeom") {
+			c.Neg = "nil" // the nil Geom: not one of the six types either
+		}
 	}
 	c.G = vkit.GenGJ(t, o)
 	if c.Neg == "nonfinite" {
@@ -114,11 +118,17 @@ func run(c Case) (v vkit.Verdict) {
 		v.NonTrivial = c.Neg == "nonfinite"
 		var b []byte
 		var err error
+		if c.Neg == "nil" {
+			g = nil
+		}
 		if p := vkit.Catch(func() { b, err = geojson.Encode(g) }); p != "" {
 			return v.Fail("Encode(%s) panicked: %s", c.Neg, p)
 		}
 		if err == nil || len(b) != 0 {
 			return v.Fail("Encode of %s geometry returned %q, err=%v; want an error and no output", c.Neg, b, err)
+		}
+		if p := vkit.Catch(func() { _ = err.Error() }); p != "" {
+			return v.Fail("the error returned by Encode(%s) cannot be printed: Error() panicked: %s", c.Neg, p)
 		}
 		return v
 	}
